@@ -170,6 +170,7 @@ Proof.
   assert (Hl : nels r = N.of_nat (length tpl)).
   { unfold nels. rewrite <- Ht, map_length. reflexivity. }
   rewrite Hl, N.eqb_refl. cbn [negb].
+  change (data_len_v1 r) with (record_len r). rewrite get_buffer_n_eq.
   rewrite (get_buffer_spec r bs Hw E). cbn [obind].
   destruct (N.ltb_spec (blen bs) m) as [C|_]; [unfold blen in C; lia|].
   cbn [Exporter.fx_encode Nat.eqb negb andb].
@@ -203,7 +204,8 @@ Proof.
   cbn [forallb] in H. apply andb_true_iff in H as [H1 H2]. apply andb_true_iff in H1 as [_ Hw].
   destruct (enc_all_defined r Hw) as [bs E].
   cbn [map]. constructor; [|exact (IH H2)].
-  exists bs. unfold rec_buffer, drec. cbn [rec_buffer_e]. rewrite (get_buffer_spec r bs Hw E). reflexivity.
+  exists bs. unfold rec_buffer, drec. cbn [rec_buffer_e].
+  change (data_len_v1 r) with (record_len r). rewrite get_buffer_n_eq. rewrite (get_buffer_spec r bs Hw E). reflexivity.
 Qed.
 
 Lemma data_send (obs : N) (udp : bool) (tid : N) (tpl : list ie) (m : N) (recs : list (list (ie * value))) :
